@@ -359,8 +359,45 @@ class BBCase(Case):
             ctx.prove("reset/discards", bb3._type is None and bb3._remaining == 0 and isinstance(bb3._buffer, int) and bb3._buffer == 0 and len(out.data.items) == size)
             ctx.cover("flush")
 
+    def concretise(self, model, obligation):
+        import re
+
+        from pyvc.harness import model_value
+
+        out = {"op": self.op}
+        m = re.search(r"c=(\d+),bits=(\d+)", obligation.name)
+        if m:
+            out["c"], out["bits"] = int(m.group(1)), int(m.group(2))
+        for d in model.decls():
+            out[d.name()] = model_value(model, d())
+        return out
+
     def native(self, inputs):
-        return None
+        """Replay on the real BitBuffer with a native stand-in storage type."""
+        from dissect.cstruct.bitbuffer import BitBuffer
+
+        W, e = self.W, self.endian
+        if self.op != "read" or "c" not in inputs or "U" not in inputs:
+            return None
+        U, c, bits = inputs["U"], inputs["c"], inputs["bits"]
+
+        class T:
+            size = W // 8
+
+            @staticmethod
+            def _read(stream):
+                return U
+
+        bb = BitBuffer(None, e)
+        if c:
+            bb._type, bb._remaining, bb._buffer = T, W - c, (U >> c) if e == "<" else U
+        try:
+            v = bb.read(T, bits)
+        except Exception as ex:  # noqa: BLE001
+            return {"reproduced": True, "observed": f"raises {type(ex).__name__}: {ex}"}
+        lo = spec_lo(W, c, bits, "<" if e == "<" else ">")
+        want = ((U % (1 << W)) >> lo) & ((1 << bits) - 1)
+        return {"reproduced": v != want, "observed": f"unit {U:#x} width {W} consumed {c} bits {bits}: read {v} expected {want}"}
 
 
 def make_bb(W, endian, op, signed):
